@@ -1,11 +1,15 @@
 #!/bin/bash
-# usage: try_mutation.sh <patch> <prop> [<prop>...]  -- applies the patch to /repo, runs the quick checks, reverts
-P="$1"; shift
-cd /repo || exit 2
-if [ -n "$(git status --porcelain --untracked-files=no)" ]; then echo "/repo not clean"; exit 2; fi
-git apply "$P" || { echo "patch does not apply"; exit 2; }
+# usage: try_mutation.sh <patch> <prop> [<prop>...]
+# Applies the patch to a scratch worktree of /repo (never to /repo itself) and runs the quick checks of a
+# scratch copy of /verif against it (RSSV_REPO), so that neither /repo nor /verif/evidence are touched.
+P="$(readlink -f "$1")"; shift
+WT=/tmp/mutrepo; VC=/tmp/mutverif
+if [ ! -d "$WT/.git" ] && [ ! -f "$WT/.git" ]; then git -C /repo worktree add -q --detach "$WT" HEAD || exit 2; fi
+git -C "$WT" checkout -q --detach "$(git -C /repo rev-parse HEAD)" 2>/dev/null; git -C "$WT" checkout -q -- . ; git -C "$WT" clean -qfd -e target
+git -C "$WT" apply "$P" || { echo "patch does not apply"; exit 2; }
+mkdir -p "$VC"; rsync -a --delete --exclude target --exclude .git --exclude replays --exclude evidence /verif/ "$VC/"; mkdir -p "$VC/replays" "$VC/evidence"
 for prop in "$@"; do
-  out=$(cd /verif && RSSV_VERIF_DIR=/verif timeout 1500 ./check $prop ${TIER:-quick} 2>&1); rc=$?
+  out=$(cd "$VC" && RSSV_REPO="$WT" RSSV_VERIF_DIR="$VC" RSSV_TARGET_DIR="$VC/target" timeout 1800 ./check $prop ${TIER:-quick} 2>&1); rc=$?
   echo "--- $prop exit=$rc"; echo "$out" | grep -E "^violation|^VIOLATION|^property|harness error|KNOWN" | cut -c1-400 | head -12
 done
-git -C /repo checkout -- . ; git -C /repo status --porcelain --untracked-files=no | head -3
+git -C "$WT" checkout -q -- .
